@@ -56,7 +56,7 @@ Proof.
   destruct (aug_loop (S (S n)) r n inf rows (m_y s) (m_v s)
               (mkAug d p (m_done s) o (map fst (rowget rows r)) [] [] inf)) as [[g' j1]|] eqn:EL; [|discriminate].
   destruct (APC g' j1 Lx Ly Hr Fr PI Ld Lo Lp eq_refl) as [Hj1 [Hy1 [Lp' [Ld' [Lo' _]]]]].
-  destruct (AFF g' j1 Lx Ly Hr Fr PI Ld Lo Lp eq_refl) as [x' [y' [EF [Lx' [Ly' [PI' [_ [Hj1' [Keep Free']]]]]]]]].
+  destruct (AFF g' j1 Lx Ly Hr Fr PI Ld Lo Lp eq_refl) as [x' [y' [EF [Lx' [Ly' [PI' [_ [Hj1' [Keep [Free' _]]]]]]]]]].
   rewrite EF. intros E; inversion E; subst. cbn [m_x m_y m_done m_ontodo m_pred].
   split; [exact (conj Lx' (conj Ly' (conj Ld' (conj Lo' (conj Lp' PI')))))|]. split.
   - inversion ND as [|? ? Nin ND']; subst. split; auto. intros i Hi. destruct (PF i (or_intror Hi)) as [A B].
